@@ -73,6 +73,9 @@ ASSUMPTIONS = ["the transport answers each substream request at most once and on
                "user's outstanding open request (the code reports nothing in that case)",
                "every spawned future is eventually polled; Substream::close() eventually completes"]
 KEEP_PREFIX = 1
+CONST_TABLE = [
+    ("DEFAULT_CHANNEL_SIZE", "src/lib.rs", r"const DEFAULT_CHANNEL_SIZE: usize = ([^;]+);", 4096),
+]
 
 PEERS = [1, 2, 3]
 ERR = {"rejected", "noconn", "clogged", "valpending", "dialfail", "taskclosed"}
@@ -164,6 +167,111 @@ def frag_held_late(p, rng):
             + frag_in(p) + [f"unhold {p}", "events", "state"])
 
 
+def frag_batch(p, q, rng):
+    """`open_substream_batch` / `try_…`: one command for several peers (one already open, one unknown, duplicates)."""
+    op = rng.choice(["openb", "tryopenb"])
+    lst = rng.choice([f"{p},{q}", f"{q},{p},{p}", f"{p},{q},9", f"{p},{q}"])
+    rest = rng.choice([
+        [f"subout {p}", f"subout {q}", f"hs {p} out", f"hs {q} out", f"subin {p}", f"subin {q}", f"hs {p} in", f"hs {q} in",
+         "events", f"accept {p}", f"accept {q}", "events"],
+        [f"subfail {p}", f"subout {q}", f"rreset {q} out", "events"],
+        [f"disc {p}", f"subout {q}", f"hs {q} out", "events", f"conn {p}"],
+        ["events"]])
+    closing = rng.choice([[f"closeb {p},{q}", "events"], [f"tryclosb {q},{p},{p}", "events"], [f"closeb 9,{p}", "events"], []])
+    return [f"{op} {lst}", "events"] + rest + ["state"] + closing
+
+
+def frag_reuse(p, rng):
+    """The user's own request dies with the rejection of the peer's inbound substream; the outbound substream is still
+    being opened and is reused by the next request (`Closed { pending_open }` + `pending_outbound`)."""
+    end = rng.choice([[f"subout {p}", f"hs {p} out", f"subin {p}", f"hs {p} in", "events", f"accept {p}", "events"],
+                      [f"subfail {p}", "events"], [f"subout {p}", f"rclose {p} out", "events"]])
+    return [f"open {p}", f"subin {p}", f"hs {p} in", "events", f"reject {p}", "state", f"open {p}", "state"] + end
+
+
+def frag_clog(p, rng):
+    """Sync channel full behind a task that is not scheduled: ChannelClogged, one ForceClose, then the async side."""
+    n = rng.choice([2, 3, 17])
+    return (frag_in(p) + [f"hold {p}"] + [f"send {p} {i:02x}" for i in range(n)] + [f"sink {p}", f"ssend @{p} 77"]
+            + rng.choice([[f"unhold {p}", f"rread {p} out"], [f"close {p}", f"unhold {p}", "events", f"ssend @{p} 78"],
+                          [f"disc {p}", f"unhold {p}", "events", f"conn {p}"]])
+            + [f"hold {p}"] + [f"asend {p} a{i}" for i in range(rng.choice([1, 2, 5]))] + [f"sasend @{p} b0", f"unhold {p}",
+                                                                                          f"rread {p} out", "events", "state"])
+
+
+def frag_cfull(p, rng):
+    """The command channel of the connection is full (it is shared with the other protocols of the connection):
+    `service.open_substream` fails in `on_open_substream` and after an Accept."""
+    first = rng.choice([[f"open {p}", "events", "state"],
+                        [f"subin {p}", f"hs {p} in", "events", f"accept {p}", "events", "state"]])
+    second = rng.choice([[f"open {p}", "events"], [f"subin {p}", f"hs {p} in", "events", f"accept {p}", "events"]])
+    return ([f"disc {p}", f"conn {p} cap={rng.choice([1, 2])} drain=0", f"cfill {p}"] + first + [f"cdrain {p}"] + second
+            + [f"cdrain {p}", f"subout {p}", f"hs {p} out", "events", "state"])
+
+
+def frag_sink(p, rng):
+    """A sink clone taken while the stream is open is used after the user saw the stream closed / reopened."""
+    end = rng.choice([[f"close {p}"], [f"rclose {p} in"], [f"disc {p}", "events", f"conn {p}"], [f"rreset {p} out"]])
+    again = rng.choice([[], frag_in(p) + [f"send {p} 0b", f"ssend @{p} 0c", f"rread {p} out"]])
+    return (rng.choice([frag_in, frag_out])(p) + [f"sink {p}", f"ssend @{p} 0a", f"rread {p} out"] + end
+            + rng.choice([["events"], [f"ssend @{p} 1a", "events"]]) + [f"ssend @{p} 2a", f"sasend @{p} 3a"] + again
+            + rng.choice([[f"sdrop @{p}"], []]) + ["events", "state"])
+
+
+def frag_hs(p, rng, maxsz):
+    """Handshake limits, failures at each step of the handshake service, its timers, `set_handshake`."""
+    big = "ab" * (maxsz + 1)
+    fits = "cd" * maxsz
+    v = rng.randrange(9)
+    if v == 0:      # local handshake above the limit: refused when it is to be sent
+        return [f"seths {big}", f"open {p}", f"subout {p}", "events", "state", f"seths {fits}", f"open {p}", f"subout {p}",
+                f"rread {p} out", "state"]
+    if v == 1:      # remote's handshake above the limit on the outbound substream
+        return [f"open {p}", f"subout {p}", f"rsend {p} out {big}", "events", "state"]
+    if v == 2:      # ... on the inbound substream; exactly at the limit it is accepted
+        return [f"subin {p}", f"rsend {p} in {big}", "events", "state", f"subin {p}", f"rsend {p} in {fits}", "events", "state"]
+    if v == 3:      # accepted inbound substream, local handshake above the limit
+        return [f"subin {p}", f"hs {p} in", "events", f"seths {big}", f"accept {p}", "events", "state", "seths 01020304"]
+    if v == 4:      # timers of the handshake service
+        return [f"open {p}", f"subout {p}", f"hstimeout {p} {rng.choice(['out', 'in'])}", "events", "state"]
+    if v == 5:
+        return [f"subin {p}", f"hstimeout {p} in", "events", "state", f"open {p}", f"subout {p}", f"subin {p}",
+                f"hstimeout {p} {rng.choice(['out', 'in'])}", "events", "state"]
+    if v == 6:      # set_handshake is read when the handshake is sent
+        return ["seths 0a0b", f"open {p}", "seths 0c", f"subout {p}", f"rread {p} out", f"hs {p} out", f"subin {p}",
+                f"hs {p} in", "events", "seths -", f"accept {p}", f"rread {p} in", "events", "seths 01020304"]
+    if v == 7:      # an oversized notification in either direction ends the stream
+        return frag_in(p) + [rng.choice([f"send {p} {big}", f"rsend {p} in {big}", f"asend {p} {big}"]), "events", "state"]
+    return [f"open {p}", f"subout {p}", f"rclose {p} out", "events", f"subin {p}", f"rclose {p} in", "events", "state"]
+
+
+def frag_pileup(p, rng):
+    """The protocol loop does not run for a while: several results of the handshake service / several inputs at once.
+    Includes the history of the repaired defect (a result queued for a substream that is removed before it is
+    handed out must not be attributed to the peer's next substream)."""
+    v = rng.randrange(4)
+    if v == 0:
+        a, b = rng.choice([("in", "out"), ("out", "in")])
+        return [f"open {p}", f"subin {p}", f"subout {p}", "phold", f"hs {p} {a}", f"rreset {p} {b}", "prelease", "state",
+                "events", f"subin {p}", "state", "events", f"hs {p} in", "events", f"accept {p}", f"subout {p}", f"hs {p} out",
+                "events", f"rsend {p} in 5{p}", "events", "state"]
+    if v == 1:
+        a, b = rng.choice([("in", "out"), ("out", "in")])
+        return [f"open {p}", f"subin {p}", f"subout {p}", "phold", f"hs {p} {a}", f"rclose {p} {b}", "prelease", "state",
+                "events", f"open {p}", f"subout {p}", "state", f"rread {p} out", f"hs {p} out", "events", "state"]
+    if v == 2:
+        return [f"open {p}", f"subin {p}", f"subout {p}", "phold", f"hs {p} in", f"hs {p} out", "prelease", "events", "state",
+                f"accept {p}", "events"]
+    return ["phold", f"open {p}", f"subin {p}", f"hs {p} in", "prelease", "events", "state", f"accept {p}", f"subout {p}",
+            f"hs {p} out", "events", "state"]
+
+
+def frag_cmdfull(p, q, rng):
+    """The handle's command channel is full (the protocol loop does not get round to it)."""
+    return (rng.choice([["cmdfill"], ["cmdhold"]]) + [f"open {p}", f"tryopenb {p},{q}", f"openb {q},{p}", f"close {p}",
+            f"tryclosb {p},{q}", f"closeb {p}", "events", "cmdrelease", "events", "state"])
+
+
 def noise(rng, peers, stall):
     p = rng.choice(peers)
     role = rng.choice(["in", "out"])
@@ -180,6 +288,13 @@ def noise(rng, peers, stall):
     if stall:
         table += [(0.03, f"stall {p} {role}{age}"), (0.02, f"release {p} {role}{age}")]
     table += [(0.025, f"hold {p}"), (0.03, f"unhold {p}")]
+    q = rng.choice(peers)
+    k = rng.choice([0, 0, 1])
+    table += [(0.02, f"openb {p},{q}"), (0.01, f"tryopenb {q},{p}"), (0.01, f"closeb {p},{q}"), (0.01, f"tryclosb {p}"),
+              (0.015, f"sink {p}"), (0.015, f"ssend {k} 4{p}"), (0.01, f"sasend {k} 5{p}"), (0.005, f"sdrop {k}"),
+              (0.015, f"asend {p} 6{p}"), (0.01, f"hstimeout {p} {role}"), (0.008, "seths 0a0b0c"), (0.004, "seths " + "ee" * 70),
+              (0.006, f"rsend {p} {role}{age} " + "dd" * 70), (0.008, "phold"), (0.02, "prelease"), (0.004, "cmdhold"),
+              (0.012, "cmdrelease"), (0.006, f"cdrain {p}"), (0.003, f"cfill {p}")]
     tot = sum(w for w, _ in table)
     x = r * tot
     for w, op in table:
@@ -200,12 +315,34 @@ def merge(rng, seqs):
     return out
 
 
+def resolve_sinks(ops):
+    """`@p` = the number of the latest `sink p` operation before this one (every `sink` operation takes a number)."""
+    latest, n, out = {}, 0, []
+    for op in ops:
+        t = op.split()
+        if len(t) > 1 and t[1].startswith("@"):
+            t[1] = str(latest.get(t[1][1:], 0))
+            op = " ".join(t)
+        if t and t[0] == "sink" and len(t) == 2:
+            latest[t[1]] = n
+            n += 1
+        out.append(op)
+    return out
+
+
 def gen_case(rng, tier):
+    return resolve_sinks(gen_case0(rng, tier))
+
+
+def gen_case0(rng, tier):
     peers = PEERS[:rng.choice([2, 2, 3])]
     auto = rng.choice([0, 1])
     dial = rng.choice([1, 1, 0])
     stall = rng.random() < 0.08
-    ops = [f"cfg auto={auto} dial={dial}"]
+    maxsz = rng.choice([64, 64, 8, 5])
+    small = rng.random() < 0.35
+    ops = [f"cfg auto={auto} dial={dial}" + (f" max={maxsz}" if maxsz != 64 else "")
+           + (f" sync={rng.choice([1, 2, 3])} async={rng.choice([1, 2])}" if small else "")]
     style = rng.random()
     body = []
     if style < 0.75:
@@ -221,6 +358,16 @@ def gen_case(rng, tier):
                     continue
                 if r < 0.14:
                     seq += frag_held_late(p, rng)
+                    continue
+                if r < 0.44:
+                    # coverage round: the handle's batch / sink / async API, back-pressure of the command channels,
+                    # the handshake service's limits, timers and failure arms, pile-ups of the protocol loop
+                    q = rng.choice([x for x in peers if x != p])
+                    k = rng.randrange(8)
+                    seq += ([f"conn {q}"] if k in (0, 7) and rng.random() < 0.7 else []) + (
+                        frag_batch(p, q, rng) if k == 0 else frag_reuse(p, rng) if k == 1 else frag_clog(p, rng) if k == 2
+                        else frag_cfull(p, rng) if k == 3 else frag_sink(p, rng) if k == 4 else frag_hs(p, rng, maxsz)
+                        if k == 5 else frag_pileup(p, rng) if k == 6 else frag_cmdfull(p, q, rng))
                     continue
                 f = rng.choice([frag_out, frag_in, frag_simul, frag_dial])(p)
                 if rng.random() < 0.6:
@@ -249,10 +396,15 @@ def gen_case(rng, tier):
     ops += body
     if rng.random() < 0.75:
         ops += ["events"]
+        ops += ["prelease", "cmdrelease"] if any(o in ("phold", "cmdhold", "cmdfill") for o in body) else []
         for p in peers:
             ops += [f"release {p} in", f"release {p} out", f"release {p} in age=1", f"release {p} out age=1"] if stall else []
             ops += [f"unhold {p}", f"disc {p}"]
         ops += ["events", "state"]
+        if rng.random() < 0.15:
+            ops += ["shutdown"]
+    elif rng.random() < 0.3:
+        ops += ["shutdown"]
     return ops
 
 
@@ -372,6 +524,15 @@ def oracle(case, out):
     prev_events = -1            # op index of the previous `events` op
     late = set()                # the protocol reported opened / open failure for the peer while an old task was held:
                                 # its NotificationStreamClosed is late (finding late-closed-report)
+    burst = False               # the protocol loop has just worked through a backlog (`phold … prelease`): meanwhile no
+                                # connection task was polled, i.e. every task was held back for the length of the burst
+    cmd_held = proto_held = False   # the adapter keeps user commands from the protocol / does not poll the protocol loop
+    maxsz = 64
+    sinks = {}                  # sink number -> (peer, number of closed(peer) events the user had seen when it was taken)
+    closed_seen = {}            # peer -> number of closed(peer) events drained
+    in_pipes = {}               # peer -> inbound pipes in order of creation
+    first_frame = {}            # inbound pipe -> first frame the remote wrote on it (its handshake)
+    later_frames = {}           # peer -> frames the remote wrote on inbound pipes after the first one
 
     def v(kind, msg, i, **kw):
         d = {"kind": kind, "msg": msg, "step": i, "op": case[i] if i < len(case) else None,
@@ -406,7 +567,7 @@ def oracle(case, out):
         # an event drained now was put on the user channel after the previous drain; it overtakes the
         # NotificationStreamClosed of the old stream of `p` because of the scheduler iff the old stream's task was
         # being held back at some moment since then
-        return p in held or (p in held_since_opened and unhold_step.get(p, -1) > prev_events)
+        return p in held or (p in held_since_opened and unhold_step.get(p, -1) > prev_events) or burst
 
     for i in range(n):
         op, o = case[i], out[i]
@@ -424,7 +585,65 @@ def oracle(case, out):
             continue
         if t[0] == "cfg":
             auto = 1 if "auto=1" in op else 0
+            m = re.search(r"\bmax=(\d+)", op)
+            maxsz = int(m.group(1)) if m else 64
             continue
+        if t[0] in ("cmdhold", "cmdfill"):
+            cmd_held = True
+        if t[0] == "cmdrelease":
+            cmd_held = False
+        if t[0] == "phold":
+            proto_held = True
+        if t[0] == "prelease":
+            burst = burst or proto_held
+            proto_held = False
+        if t[0] == "shutdown":
+            if not o.startswith("exited"):
+                v("protocol-did-not-exit", f"the user dropped the handle but NotificationProtocol::run() did not return: {o}", i)
+            break
+        # ---- batch variants: every peer of the set that has no open stream is one open request
+        batch_peers = []
+        if t[0] in ("openb", "tryopenb") and len(t) == 2 and o.split()[0] == "ok":
+            for x in t[1].split(","):
+                if x.isdigit() and int(x) not in batch_peers and not view_open.get(int(x)):
+                    batch_peers.append(int(x))
+            for bp in batch_peers:
+                subin_since_events.add(bp)
+                last_terminal[bp] = False
+        # ---- sink clones (sink_send_after_close_fails)
+        if t[0] == "sink" and peer is not None:
+            m = re.search(r"sink=(\d+)", o)
+            if o.startswith("ok") and m:
+                sinks[int(m.group(1))] = (peer, closed_seen.get(peer, 0))
+                if not view_open.get(peer):
+                    v("sink-for-closed-stream", f"notification_sink({peer}) returned a sink although the user has not been "
+                      f"told that a stream to {peer} is open", i, peer=peer)
+            elif o.startswith("none") and view_open.get(peer):
+                v("no-sink-for-open-stream", f"notification_sink({peer}) returned None while the stream is open", i, peer=peer)
+        if t[0] in ("ssend", "sasend") and peer in sinks and o.split()[0] == "ok":
+            sp, seen = sinks[peer]
+            if closed_seen.get(sp, 0) > seen:
+                v("sink-send-after-close", f"a notification was accepted through a sink of peer {sp} taken before the user saw "
+                  f"NotificationStreamClosed({sp})", i, peer=sp)
+        # ---- what the remote writes on inbound substreams: the first frame is the handshake
+        if t[0] == "subin" and peer is not None:
+            m = re.search(r"pipe=(\d+)", o)
+            if m:
+                in_pipes.setdefault(peer, []).append(int(m.group(1)))
+        if t[0] in ("hs", "rsend") and peer is not None and len(t) > 2 and t[2] == "in" and o.split()[0] == "ok":
+            rest = t[3:]
+            age = 0
+            if rest and rest[0].startswith("age="):
+                age = int(rest[0][4:]) if rest[0][4:].isdigit() else 0
+                rest = rest[1:]
+            pl = in_pipes.get(peer, [])
+            if age < len(pl):
+                k = pl[-1 - age]
+                fr = ("aa%02x" % (k % 256)) if t[0] == "hs" else (rest[0].lower() if rest else "")
+                if k not in first_frame:
+                    first_frame[k] = fr
+                else:
+                    later_frames.setdefault(peer, set()).add(fr)
         if peer is not None and t[0] in ("subin", "open", "accept", "conn"):
             # ops that can start a negotiation round; an event drained later may predate them
             subin_since_events.add(peer)
@@ -473,16 +692,22 @@ def oracle(case, out):
             pending_req_kind.pop(peer, None)
         if t[0] == "subout":
             pending_req_kind.pop(peer, None)
-        if t[0] == "open" and o.split()[0] == "ok":
-            open_ok_steps.setdefault(peer, []).append(i)
-            if (peer in connected and quiet.get(peer) and not view_open.get(peer) and peer not in qualifying
-                    and peer not in pending_req_kind):
+        for rp in ([peer] if t[0] == "open" and o.split()[0] == "ok" else batch_peers):
+            open_ok_steps.setdefault(rp, []).append(i)
+            if (rp in connected and quiet.get(rp) and not view_open.get(rp) and rp not in qualifying
+                    and rp not in pending_req_kind and not cmd_held and not proto_held):
                 # connected, nothing in progress as far as anybody can know: the request must be answered
-                has_call = CALL.search(o) is not None or peer in nodrain
-                qualifying[peer] = (i, has_call)
-            quiet[peer] = False
+                # (batch_open_answers_each: every peer of a batch is owed its own answer)
+                has_call = re.search(r"\bopen\(%d," % rp, o) is not None or rp in nodrain
+                qualifying[rp] = (i, has_call)
+            quiet[rp] = False
         # ---- user events
         for kind, p, extra in parse_events(o) if t[0] == "events" else []:
+            if kind in ("validate", "opened"):
+                hs = re.search(r"hs=([0-9a-f]*)", extra)
+                if hs and len(hs.group(1)) // 2 > maxsz:
+                    v("handshake-over-limit", f"a handshake of {len(hs.group(1)) // 2} bytes was handed to the user "
+                      f"(limit {maxsz})", i, peer=p)
             if kind == "validate":
                 last_validate_step[p] = i
                 round_answer[p] = None
@@ -515,7 +740,8 @@ def oracle(case, out):
                     v("closed-without-opened", f"stream to peer {p} reported closed but it was not open", i,
                       peer=p)
                 view_open[p] = False
-                if p in held_since_opened:
+                closed_seen[p] = closed_seen.get(p, 0) + 1
+                if p in held_since_opened or burst:
                     # the task of the old stream was held back for a while: its report may come after the next
                     # negotiation round has started (that round's bookkeeping stays; nothing is known to be quiet)
                     late_closed_now.add(p)
@@ -540,6 +766,13 @@ def oracle(case, out):
                 if not view_open.get(p):
                     v("notification-while-closed", f"notification from peer {p} delivered outside an open period", i,
                       peer=p)
+                if len(extra) // 2 > maxsz:
+                    v("oversized-notification", f"a notification of {len(extra) // 2} bytes was delivered (limit {maxsz})",
+                      i, peer=p)
+                if (extra in [first_frame.get(k) for k in in_pipes.get(p, [])]
+                        and extra not in later_frames.get(p, set())):
+                    v("handshake-delivered-as-notification", f"the first frame the remote wrote on an inbound substream of "
+                      f"peer {p} (its handshake {extra}) was delivered as a notification", i, peer=p)
         if t[0] == "events":
             for kind, p, extra in parse_events(o):
                 if kind == "closed" and p in late_closed_now:
@@ -558,6 +791,7 @@ def oracle(case, out):
                     # by the handle since then may belong to the next round already
                     boundary_step[p] = prev_events
             prev_events = i
+            burst = False
         if t[0] in ("accept", "reject"):
             quiet[peer] = False
         if t[0] in ("accept", "reject") and peer in last_validate_step and round_answer.get(peer) is None:
@@ -567,7 +801,7 @@ def oracle(case, out):
                 last_validate_step.pop(peer, None)      # the round ends silently
         # closed_on_disconnect: checked at the end (after the draining suffix)
     complete = n == len(case) and not any(x.startswith("panic") or x == "skipped" for x in out[:n])
-    if complete and final_suffix:
+    if complete and final_suffix and not proto_held and not cmd_held:
         last = len(case) - 1
         for p, is_open in view_open.items():
             # only for peers that really are disconnected at the end (a shrunk case may end with a `disc` of
